@@ -63,6 +63,7 @@ Print Assumptions C07_no_acl_sends_everything.
 Theorem C07_kp_sound :
   forall cs tbl u,
     c_acl cs = Some tbl -> c_user cs = Some u -> has_sub_step (c_ops cs) = true ->
+    has_acl_step (c_ops cs) = false ->
     kp_c07 cs = [] ->
     forall ob n d, In ob (c_obs cs) -> In (OUpd n d) (ob_group ob) ->
                    allow_of tbl u (g_target (n_prefix n)) = true.
